@@ -74,7 +74,7 @@ REQUIRED = dict(
              'judged:multinest:multimodal-2-modes-equal', 'multinest:multimodal-off',
              'multinest:multimodal-1-mode', 'multinest:multimodal-2-modes-equal', 'multinest:multimodal-2-modes-ragged',
              'polychord:cluster-1', 'polychord:cluster-2-equal', 'polychord:cluster-off',
-             'N:1', 'N:2', 'N:3', 'N:10', 'N:200', 'weights:equal', 'weights:dominant', 'weights:zeros', 'weights:ties',
+             'N:1', 'N:2', 'N:3', 'N:10', 'N:200', 'N:thousands', 'weights:equal', 'weights:dominant', 'weights:zeros', 'weights:ties',
              'weights:descending', 'weights:runner-up-a-hair-lighter', 'values:distinct', 'values:tied', 'derived:none', 'derived:mu', 'derived:mu,logg,avg_T',
              'D:1', 'D:5', 'quantile:exact', 'quantile:bracket'])
 SAMPLERS = ['nestle', 'multinest', 'polychord']
@@ -274,6 +274,11 @@ def wl_posterior(ctx, rng, rounds=1):
             ctx.observe('bins:two-share-a-centre')
         # ---- the designed sample set
         N = int([1, 2, 3, 10, 200, 0, 0][ctx.case['index'] % 7] or rng.integers(4, 60))
+        long_chain = ctx.case['index'] % 31 == 17
+        if long_chain:
+            # a chain of the length real runs have (thousands of samples; never a round number)
+            N = (int(rng.integers(2100, 3300)) if ctx.tier == 'quick' else int(rng.integers(4000, 20000))) | 1
+            ctx.observe('N:thousands')
         two = layout_kind in ('multimodal-2-modes-equal', 'multimodal-2-modes-ragged', 'cluster-2-equal', 'cluster-2-ragged')
         if two and N < 2:
             N = 2
@@ -307,6 +312,9 @@ def wl_posterior(ctx, rng, rounds=1):
             kw['cluster'] = layout_kind != 'cluster-off'
         kw['sigma_fraction'] = float(rng.choice([0.1, 0.5, 1.0]))
         dsel = [[], ['mu'], ['mu', 'logg', 'avg_T']][int(rng.integers(0, 3))]
+        if long_chain:
+            kw['sigma_fraction'] = 24.5 / N          # (two dozen forward models for the profile spreads, not thousands)
+            dsel = [['mu'], ['mu', 'logg', 'avg_T']][int(rng.integers(0, 2))]
         if opt is None:
             opt = L.make_optimizer(sampler, obs, model, ctx.scratch, tag, **kw)
             L.disable_default_fits(opt, model, obs)
